@@ -8,6 +8,7 @@ import JanetModel.Loop.Model
 import JanetModel.Loop.SelfPipe
 import JanetModel.Loop.FdPaths
 import JanetModel.Loop.RootPaths
+import JanetModel.Loop.CounterPaths
 import JanetModel.Loop.FdsSpawn
 import JanetModel.Loop.Child
 
@@ -19,8 +20,10 @@ open JanetModel.Loop
 /-- the loop-termination test is `!(run queue non-empty || tq_count || listener_count)` -/
 theorem done_expr_match : Gen.Loop.doneTerms = doneSpec := by decide
 
-/-- every site that increments / decrements listener_count is one the model has a transition for (same guards) -/
-theorem counter_sites_match : Gen.Loop.counterSites = siteSpec Gen.Loop.selfpipeDecNeedsCb := by decide
+/-- every site that increments / decrements listener_count is one the model has a transition for (file, function, sign, in source
+    order).  The CONDITIONS under which each site is executed are checked path by path as Boolean formulas over the branches taken
+    (`counter_paths_ok`, `counter_ops_match_model` below), no longer as the text of the enclosing conditions. -/
+theorem counter_sites_match : Gen.Loop.counterSites.map (fun x => (x.1, x.2.1, x.2.2.1)) = siteSpec := by decide
 
 /-- poll phase: entered and blocking under `tq_count || listener_count`; the stale-timeout drop loop has the shape modelled by
     `dropStale` -/
@@ -859,6 +862,144 @@ example : RootPaths.pathOk ("janet_proc_wait_cb", "end", "",
     [("assume:have-proc", "true"), ("unroot", "ABSTRACT:proc"), ("unroot", "FIBER:args.fiber")]) = true := by decide
 
 end RootPathsSec
+
+/-! ## path-level guards of the listener_count sites (session 4, second part)
+
+`Gen.CounterPaths.paths`: every control-flow path (from the function entry or a loop head to the next loop head, return, raise) of
+the seven functions that change `janet_vm.listener_count`, with the branches it took as literals over the vocabulary
+`CounterPaths.vocab` and the sites it executed.  Replaces the literal comparison of guard chains: a behaviour-preserving rewrite
+(`goto` loop → `for (;;) … break`, `if (a && b)` → nested ifs, negated comparisons, early exits) gives the same literals. -/
+
+section CounterPathsSec
+open JanetModel.CounterPaths (pathOk incN decN mask aendDec popDec ranInc deliverDec gcDec)
+
+/-- the translator's vocabulary (atom numbers) is the one the guards are written in -/
+theorem counter_vocab_match :
+    Gen.CounterPaths.atoms = CounterPaths.vocab ∧ Gen.CounterPaths.functions = CounterPaths.vocab.map (·.1) := by decide
+
+/-- ★ on every extracted path, under EVERY truth assignment of the function's atoms compatible with the branches the path took
+    (truth table), listener_count is incremented / decremented exactly when the guard of the model's transition says so — once —
+    and every path is satisfiable -/
+theorem counter_paths_ok : Gen.CounterPaths.paths.all (pathOk Gen.Loop.selfpipeDecNeedsCb) = true := by decide +kernel
+
+/-- the paths and the site table agree both ways: every site of `Gen.Loop.counterSites` lies on some path of its function with its
+    sign; every increment / decrement on a path is a site of the table; the walked functions are exactly those of the table -/
+theorem counter_paths_cover_sites :
+    Gen.CounterPaths.functions.all CounterPaths.sitesCovered = true ∧
+    Gen.CounterPaths.paths.all CounterPaths.eventsInTable = true ∧
+    Gen.CounterPaths.paths.all (fun p => Gen.CounterPaths.functions.contains p.1) = true ∧
+    Gen.Loop.counterSites.all (fun x => Gen.CounterPaths.functions.contains x.2.1) = true ∧
+    Gen.CounterPaths.sites = Gen.CounterPaths.functions.map (fun fn => (fn, CounterPaths.tableSigns fn)) := by decide
+
+private theorem inc_simple (nc : Bool) : incN nc "janet_async_start_fiber" 0 = 1 ∧ incN nc "janet_ev_post_event" 0 = 1 ∧
+    incN nc "janet_ev_threaded_call" 0 = 1 := by cases nc <;> decide
+private theorem dec_aend (nc : Bool) : decN nc "janet_async_end" (mask [true, false]) = 1 := by cases nc <;> decide
+private theorem dec_gc (nc : Bool) : decN nc "janet_deinit_block" (mask [true, true, false]) = 1 := by cases nc <;> decide
+private theorem dec_pipe (nc : Bool) : decN nc "janet_ev_handle_selfpipe" (mask [true, true]) = 1 := by cases nc <;> decide
+private theorem dec_pipe_null (nc : Bool) : decN nc "janet_ev_handle_selfpipe" (mask [true, false]) = if nc then 0 else 1 := by
+  cases nc <;> decide
+private theorem dec_pop (nc w cur e y i : Bool) : decN nc "janet_loop1" (mask [true, false, w, cur, e, y, i]) = if w then 1 else 0 := by
+  cases nc <;> cases w <;> cases cur <;> cases e <;> cases y <;> cases i <;> decide
+private theorem inc_ran (nc w b : Bool) : incN nc "janet_loop1" (mask [true, false, w, true, b, false, false]) = if b then 1 else 0 := by
+  cases nc <;> cases w <;> cases b <;> decide
+
+/-- ★ the change of `lc` made by each transition of the event-loop model is the one the code path with the corresponding branches
+    makes (`incN` / `decN` = the guards `counter_paths_ok` checks every path against) -/
+theorem counter_ops_match_model (cfg : Cfg) (s s' : St) (nc : Bool) :
+    (step cfg s .astart = some s' → s'.lc = s.lc + incN nc "janet_async_start_fiber" 0) ∧
+    (step cfg s .aend = some s' → s'.lc = s.lc - decN nc "janet_async_end" (mask [true, false])) ∧
+    (step cfg s .gcListener = some s' → s'.lc = s.lc - decN nc "janet_deinit_block" (mask [true, true, false])) ∧
+    (∀ b, step cfg s (.post b) = some s' → s'.lc = s.lc + incN nc "janet_ev_post_event" 0) ∧
+    (step cfg s .await = some s' → s'.lc = s.lc + incN nc "janet_ev_threaded_call" 0) ∧
+    (step cfg s .callNoFiber = some s' → s'.lc = s.lc + incN nc "janet_ev_threaded_call" 0) ∧
+    (step cfg s .procWait = some s' → s'.lc = s.lc + incN nc "janet_ev_threaded_call" 0) ∧
+    (step cfg s .deliverAwait = some s' → s'.lc = s.lc - decN nc "janet_ev_handle_selfpipe" (mask [true, true])) ∧
+    (step cfg s .deliverNoFiber = some s' → s'.lc = s.lc - decN nc "janet_ev_handle_selfpipe" (mask [true, true])) ∧
+    (step cfg s .deliverProc = some s' → s'.lc = s.lc - decN nc "janet_ev_handle_selfpipe" (mask [true, true])) ∧
+    (step cfg s .deliverPosted = some s' → s'.lc = s.lc - decN nc "janet_ev_handle_selfpipe" (mask [true, true])) ∧
+    (step cfg s .deliverChan = some s' → s'.lc = s.lc - decN nc "janet_ev_handle_selfpipe" (mask [true, true])) ∧
+    (step cfg s .deliverNull = some s' → s'.lc = s.lc - decN (!cfg.nullDec) "janet_ev_handle_selfpipe" (mask [true, false])) ∧
+    (∀ f cur e y i, step cfg s (.pop f) = some s' →
+      s'.lc = s.lc - decN nc "janet_loop1" (mask [true, false, decide (f ∈ s.susp), cur, e, y, i])) ∧
+    (∀ f b w, step cfg s (.ran f b) = some s' → s'.lc = s.lc + incN nc "janet_loop1" (mask [true, false, w, true, b, false, false])) := by
+  have hi := inc_simple nc
+  refine ⟨?_, ?_, ?_, ?_, ?_, ?_, ?_, ?_, ?_, ?_, ?_, ?_, ?_, ?_, ?_⟩
+  · intro h; rw [hi.1]; simp [step] at h; subst h; rfl
+  · intro h; rw [dec_aend]
+    by_cases h0 : s.lis = 0
+    · simp [step, h0] at h
+    · simp [step, h0] at h; subst h; rfl
+  · intro h; rw [dec_gc]
+    by_cases h0 : s.lis = 0
+    · simp [step, h0] at h
+    · simp [step, h0] at h; subst h; rfl
+  · intro b h; rw [hi.2.1]; cases b <;> (simp [step] at h; subst h; rfl)
+  · intro h; rw [hi.2.2]; simp [step] at h; subst h; rfl
+  · intro h; rw [hi.2.2]; simp [step] at h; subst h; rfl
+  · intro h; rw [hi.2.2]; simp [step] at h; subst h; rfl
+  · intro h; rw [dec_pipe]
+    by_cases h0 : s.awaits = 0 ∨ s.calls = 0
+    · simp [step, h0] at h
+    · simp only [step, if_neg h0] at h; simp at h; subst h; rfl
+  · intro h; rw [dec_pipe]
+    by_cases h0 : s.noFiber = 0 ∨ s.calls = 0
+    · simp [step, h0] at h
+    · simp only [step, if_neg h0] at h; simp at h; subst h; rfl
+  · intro h; rw [dec_pipe]
+    by_cases h0 : s.procWaits = 0 ∨ s.calls = 0
+    · simp [step, h0] at h
+    · simp only [step, if_neg h0] at h; simp at h; subst h; rfl
+  · intro h; rw [dec_pipe]
+    by_cases h0 : s.posted = 0
+    · simp [step, h0] at h
+    · simp only [step, if_neg h0] at h; simp at h; subst h; rfl
+  · intro h; rw [dec_pipe]
+    by_cases h0 : s.posted = 0 ∨ s.tchanPending = 0
+    · simp [step, h0] at h
+    · simp only [step, if_neg h0] at h
+      cases ht : cfg.tchanUnroot <;> (simp [ht] at h; subst h; rfl)
+  · intro h; rw [dec_pipe_null]
+    by_cases h0 : s.postedNull = 0
+    · simp [step, h0] at h
+    · simp only [step, if_neg h0] at h
+      cases hn : cfg.nullDec <;> (simp [hn] at h; subst h; simp)
+  · intro f cur e y i h; rw [dec_pop]
+    simp only [step] at h
+    by_cases hr : f ∈ s.runq
+    · by_cases hs : f ∈ s.susp
+      · simp [hr, hs] at h; subst h; simp [hs]
+      · simp [hr, hs] at h; subst h; simp [hs]
+    · simp [hr] at h
+  · intro f b w h; rw [inc_ran]
+    cases b
+    · simp [step] at h; subst h; simp
+    · simp only [step] at h
+      by_cases hs : f ∈ s.susp
+      · simp [hs] at h
+      · simp [hs] at h; subst h; simp
+
+/-- a task that is popped but stale (`expected_sched_id != sched_id`) is not run and not counted again, whatever the other atoms say:
+    `Task.events` has no `ran` event for it -/
+theorem counter_stale_task_not_counted (nc w e y i : Bool) : incN nc "janet_loop1" (mask [true, false, w, false, e, y, i]) = 0 := by
+  cases nc <;> cases w <;> cases e <;> cases y <;> cases i <;> decide
+
+/-- the tree's configuration of the model (`Cfg.ofGen.nullDec`) is the guard the self-pipe paths were checked against -/
+theorem counter_cfg_match : (!Cfg.ofGen.nullDec) = Gen.Loop.selfpipeDecNeedsCb := by decide
+
+/-- the check rejects: a decrement that skips cancelled tasks (mutation m1: two paths with the same literals, one without the site), a
+    threaded call that does not count, a second decrement on the cancel path, a self-pipe reader that un-counts only events with a
+    callback when the model says every event; it accepts the `for (;;) … break` spelling of the self-pipe loop -/
+example : pathOk false ("janet_loop1", "head", "loop", [.assume 0 true, .assume 1 false, .assume 2 true, .assume 3 false]) = false := by decide
+example : pathOk false ("janet_ev_threaded_call", "entry", "end", []) = false := by decide
+example : pathOk false ("janet_async_end", "entry", "end", [.assume 0 true, .assume 1 false, .dec 0, .dec 0]) = false := by decide
+example : pathOk false ("janet_ev_handle_selfpipe", "head", "loop", [.assume 0 true, .assume 1 false]) = false := by decide
+example : pathOk true ("janet_ev_handle_selfpipe", "head", "loop", [.assume 0 true, .assume 1 false]) = true := by decide
+example : pathOk false ("janet_ev_handle_selfpipe", "head", "end", [.assume 0 false]) = true ∧
+    pathOk false ("janet_ev_handle_selfpipe", "head", "loop", [.assume 0 true, .dec 0]) = true := by decide
+example : pathOk false ("janet_loop1", "head", "loop", [.assume 0 true, .assume 0 false]) = false := by decide   -- unsatisfiable
+example : Gen.CounterPaths.paths.length ≥ 50 := by decide
+
+end CounterPathsSec
 
 /-! ## the self pipe: every completion written by another thread is delivered (session 4)
 
